@@ -63,13 +63,15 @@ inductive Ev where
   | define (s : Nat)
   /-- a symbol was referenced (its "used" flag set) -/
   | use (s : Nat)
+  /-- `asmmac.c Preprocess`: `EnterDefine` / `RemoveDefine` of text replacement `s` -/
+  | effect (s : Nat)
 deriving DecidableEq, Repr
 
 /-- `LabPart` is non-empty and `LabelPresent()` (asmlabel.c) holds: not for `EQU`/`=`/`SET`/`:=`, which consume
 the label field themselves -/
 def Leaf.labelPresent (l : Leaf) : Bool :=
   match l.kind with
-  | .plain | .use | .equ | .set => false
+  | .plain | .use | .equ | .set | .ppDefine | .ppUndef => false
   | _ => true
 
 /-- `FoundMacro(&OneMacro)` -/
@@ -94,6 +96,10 @@ def Leaf.exec (l : Leaf) : List Ev :=
   | .equ | .set => [.define l.sym]
   | .macroIntGlobal => [.define l.sym, .code l.marker]
   | .use => [.use l.sym, .code l.marker]
+  -- `as.c`: a line whose first character is `#` goes to `asmmac.c Preprocess` instead of `Produce_Code`;
+  -- `Preprocess` itself returns at once `if (!IfAsm)` (the caller `step` tests `ifAsm` for every leaf alike),
+  -- otherwise `EnterDefine` / `RemoveDefine`; no label, `CodeLen = 0`
+  | .ppDefine | .ppUndef => [.effect l.sym]
   | .plain | .pseudo | .macro | .macroInt | .macroIntLocal => [.code l.marker]
 
 structure M where
@@ -270,6 +276,7 @@ def hardErrs (m : M) : List Nat := m.errs.filter (· ≥ 1000)
 def Ev.code? : Ev → Option Nat | .code b => some b | _ => none
 def Ev.define? : Ev → Option Nat | .define s => some s | _ => none
 def Ev.use? : Ev → Option Nat | .use s => some s | _ => none
+def Ev.effect? : Ev → Option Nat | .effect s => some s | _ => none
 
 /-- the code bytes, oldest first -/
 def M.codes (m : M) : List Nat := m.out.reverse.filterMap Ev.code?
@@ -279,6 +286,9 @@ def M.defs (m : M) : List Nat := m.out.reverse.filterMap Ev.define?
 
 /-- the symbols referenced, oldest first -/
 def M.uses (m : M) : List Nat := m.out.reverse.filterMap Ev.use?
+
+/-- the text replacements established / removed by preprocessor lines, oldest first -/
+def M.effs (m : M) : List Nat := m.out.reverse.filterMap Ev.effect?
 
 /-! ## END: `as.c ProcessFile` / `asmallg.c CodeEND`
 
